@@ -292,6 +292,25 @@ def run_opt(case, options, context, labels):
                if t[k1] == v1 and t[k2] == v2]
         if opm.find(**{k1: v1, k2: v2}) != exp:
             raise Violation(f"find({k1}={v1!r}, {k2}={v2!r}) != {exp}")
+    # any number of criteria at once: three, all the options of a task (only
+    # the tasks with exactly these options remain), none (every task)
+    for nk in sorted({min(3, len(keys)), len(keys)}):
+        for ti_ in sorted({0, len(expected) // 2, len(expected) - 1}):
+            crit = {k: expected[ti_][k] for k in keys[-nk:]}
+            exp = [i for i, t in enumerate(expected)
+                   if all(t[k] == v for k, v in crit.items())]
+            try:
+                got = opm.find(**crit)
+            except Exception as e:
+                raise Violation(f"find with {nk} criteria {crit!r} raised "
+                                f"{type(e).__name__}: {e}")
+            if got != exp:
+                raise Violation(f"find with {nk} criteria {crit!r} = {got}, "
+                                f"tasks holding all these values: {exp}")
+        if nk >= 3:
+            labels.append("find:3-or-more-criteria")
+    if opm.find() != list(range(len(expected))):
+        raise Violation("find() without criteria does not list every task")
     # the same manager rebuilt from another product forgets the first one
     opm.from_cartesian_product(zz_first=[3, 1, 2], zz_second="only")
     if opm.ntasks != 3 or [opm.get_task(i).options for i in range(3)] != \
